@@ -1,5 +1,6 @@
 mod enc;
 mod fd;
+mod fmt;
 mod gen;
 mod hufcodec;
 mod frames;
@@ -94,6 +95,7 @@ fn main() {
         "c05exec" => fd::c05exec(rest),
         "c05case" => fd::c05case(rest),
         "c11exec" => fd::c11exec(rest),
+        "c14rows" => fmt::c14rows(rest),
         "mkcorpus" => gen::mkcorpus(rest),
         "encexec" => enc::encexec(rest),
         "encgraph" => enc::encgraph(rest),
